@@ -45,7 +45,9 @@ def _is_negated(e):
 
 
 def _truth(e):
-    """Boolean context: len(x) != 0 / len(x) > 0 -> x;  len(x) == 0 -> not x;  x != [] ... stay."""
+    """Boolean context: len(x) != 0 / len(x) > 0 -> x;  len(x) == 0 -> not x;  bool(x) -> x;  x != [] ... stay."""
+    if isinstance(e, ast.Call) and isinstance(e.func, ast.Name) and e.func.id == "bool" and len(e.args) == 1 and not e.keywords:
+        return e.args[0]
     if isinstance(e, ast.Compare) and len(e.ops) == 1 and isinstance(e.left, ast.Call) and isinstance(e.left.func, ast.Name) \
             and e.left.func.id == "len" and len(e.left.args) == 1 and isinstance(e.comparators[0], ast.Constant) \
             and type(e.comparators[0].value) is int:
@@ -81,6 +83,12 @@ class _Expr(ast.NodeTransformer):
 
     def visit_Compare(self, n):
         self.generic_visit(n)
+        t = _truth(n)
+        if t is not n:
+            # len(x) > 0 as a value: bool(x) (the test contexts strip the bool again)
+            if isinstance(t, ast.UnaryOp):
+                return t
+            return ast.Call(func=ast.Name("bool", ast.Load()), args=[t], keywords=[])
         if len(n.ops) == 1:
             l, r = n.left, n.comparators[0]
             if isinstance(n.ops[0], (ast.Eq, ast.NotEq)):
@@ -156,11 +164,29 @@ def _uses(nodes, name):
 def _bool_valued(e):
     if isinstance(e, ast.Compare):
         return True
+    if isinstance(e, ast.Call) and isinstance(e.func, ast.Name) and e.func.id == "bool":
+        return True
     if isinstance(e, ast.UnaryOp) and isinstance(e.op, ast.Not):
         return True
     if isinstance(e, ast.BoolOp):
         return all(_bool_valued(v) for v in e.values)
     return False
+
+
+def _boolish(e):
+    if _bool_valued(e):
+        return True
+    return isinstance(e, ast.Call) and isinstance(e.func, ast.Name) and e.func.id == "bool"
+
+
+def _flat(op, values):
+    out = []
+    for v in values:
+        if isinstance(v, ast.BoolOp) and type(v.op) is type(op):
+            out.extend(v.values)
+        else:
+            out.append(v)
+    return ast.BoolOp(op=op, values=out)
 
 
 def _ret_const(st, value):
@@ -282,10 +308,21 @@ def _if(n):
         return _if(ast.If(test=ast.BoolOp(op=ast.And(), values=vals), body=inner.body, orelse=[]))
     if len(n.body) == 1 and len(n.orelse) == 1:
         a, b = n.body[0], n.orelse[0]
-        if _bool_valued(n.test) and _ret_const(a, True) and _ret_const(b, False):
-            return ast.Return(value=n.test)
-        if _bool_valued(n.test) and _ret_const(a, False) and _ret_const(b, True):
+        as_bool = lambda t: t if _bool_valued(t) else ast.Call(func=ast.Name("bool", ast.Load()), args=[t], keywords=[])
+        if _ret_const(a, True) and _ret_const(b, False):
+            return ast.Return(value=as_bool(n.test))
+        if _ret_const(a, False) and _ret_const(b, True):
             return ast.Return(value=negate(n.test))
+        # if c: return True else: return X -> return c or X ;  if c: return X else: return False -> return c and X
+        if isinstance(a, ast.Return) and isinstance(b, ast.Return) and a.value is not None and b.value is not None:
+            if _ret_const(a, True) and _boolish(b.value):
+                return ast.Return(value=_flat(ast.Or(), [as_bool(n.test), b.value]))
+            if _ret_const(b, False) and _boolish(a.value):
+                return ast.Return(value=_flat(ast.And(), [as_bool(n.test), a.value]))
+            if _ret_const(a, False) and _boolish(b.value):
+                return ast.Return(value=_flat(ast.And(), [negate(n.test), b.value]))
+            if _ret_const(b, True) and _boolish(a.value):
+                return ast.Return(value=_flat(ast.Or(), [negate(n.test), a.value]))
     return n
 
 
